@@ -138,7 +138,7 @@ Proof.
   - cbn. discriminate.
 Qed.
 
-(* and under the reference table the same schedules are not admitted *)
+(* and under the reference table the same schedules are rejected *)
 Lemma sched_downgraded_blocked :
   exec_sched repo_body (mode_of reference_table) 2 (init store1) sched_downgraded = None.
 Proof. vm_compute. reflexivity. Qed.
